@@ -26,6 +26,8 @@ REQUIRED_COUNTERS = ['chk:rfi', 'chk:history', 'chk:refusal', 'chk:form']
 
 def spell(rng, s, pos, mode=None):
     mode = mode if mode is not None else int(rng.integers(3))
+    if len(set(s.channels)) < len(s.channels):
+        mode = 1                      # repeated channel names: by position only
     if mode == 0:
         return [s.channels[p] for p in pos]
     if mode == 1:
@@ -53,8 +55,8 @@ def same(a, b):
     if np.asarray(a).tobytes() != np.asarray(b).tobytes():
         return False
     if hasattr(a, 'range'):
-        ra = np.array([list(map(float, x)) for x in a.range()])
-        rb = np.array([list(map(float, x)) for x in b.range()])
+        ra = np.array([list(map(float, a.range(p_))) for p_ in range(a.shape[1])])      # by position
+        rb = np.array([list(map(float, b.range(p_))) for p_ in range(b.shape[1])])
         return ra.shape == rb.shape and np.array_equal(ra, rb, equal_nan=True)
     return True
 
@@ -74,6 +76,13 @@ def run(ctx):
         else:
             spec = zoo.float_spec(rng, n=0 if empty else int(rng.integers(8, 40)))
             spec['pne'] = [str(rng.choice(['0,0', '4,1', '3,0'])) for _ in spec['widths']]
+        dupnames = len(spec['names']) >= 3 and rng.random() < 0.12
+        if dupnames:
+            # a file recording the same channel name for two parameters (with their own settings): every column still
+            # follows the law of its own parameter; requests are made by position only (a name would be ambiguous)
+            j_ = int(rng.integers(1, len(spec['names'])))
+            spec['names'] = list(spec['names'])
+            spec['names'][j_] = spec['names'][0]
         s = zoo.write_and_load(F, spec, path)
         dtag = 'fresh'
         if rng.random() < 0.3:
